@@ -1,0 +1,20 @@
+//go:build verif
+
+// Contracts for govc (contract-based deductive verification, see /verif/DESIGN.md).
+// Comment-only file: it adds no code and is compiled only with -tags verif.
+
+package main
+
+//@ spec fn authConfigured(cfg *clconfig.ClokiConfig) bool = cfg.Setting.AUTH_SETTINGS.BASIC.Username != "" && cfg.Setting.AUTH_SETTINGS.BASIC.Password != ""
+
+// When a login and password are configured, the credential check is the first
+// (outermost) middleware of the one router every route is registered on.
+//@ func main [C20]
+//@   flag checks=-panic
+//@   check auth-first: !isnil(app) && authConfigured(cfg) ==> app.g_auth
+
+// Not verified: they install no middleware on the router (frame only).
+//@ func initPyro
+//@   modifies nothing
+//@ func httpStart
+//@   modifies nothing
